@@ -16,6 +16,7 @@ import (
 	"encoding/json"
 	"fmt"
 	"os"
+	"strings"
 
 	"github.com/sourcenetwork/defradb/client"
 	"github.com/sourcenetwork/defradb/client/request"
@@ -34,6 +35,8 @@ func (db *DB) basicImport(ctx context.Context, filepath string) (err error) {
 	}()
 
 	d := json.NewDecoder(bufio.NewReader(f))
+	// numbers are kept as written, decoding them as float64 would corrupt integers beyond 2^53
+	d.UseNumber()
 
 	t, err := d.Token()
 	if err != nil {
@@ -66,6 +69,9 @@ func (db *DB) basicImport(ctx context.Context, filepath string) (err error) {
 			err = d.Decode(&docMap)
 			if err != nil {
 				return NewErrJSONDecode(err)
+			}
+			for k, v := range docMap {
+				docMap[k] = fromJSONNumbers(v)
 			}
 
 			// check if self referencing and remove from docMap for key creation
@@ -113,6 +119,31 @@ func (db *DB) basicImport(ctx context.Context, filepath string) (err error) {
 	}
 
 	return nil
+}
+
+// fromJSONNumbers replaces every json.Number within the given decoded JSON value
+// by an int64 if it is an integer in range, and by a float64 otherwise.
+func fromJSONNumbers(v any) any {
+	switch val := v.(type) {
+	case json.Number:
+		// "-0" is not an integer, it is the float negative zero
+		if i, err := val.Int64(); err == nil && (i != 0 || !strings.HasPrefix(val.String(), "-")) {
+			return i
+		}
+		if f, err := val.Float64(); err == nil {
+			return f
+		}
+		return val.String()
+	case map[string]any:
+		for k, inner := range val {
+			val[k] = fromJSONNumbers(inner)
+		}
+	case []any:
+		for i, inner := range val {
+			val[i] = fromJSONNumbers(inner)
+		}
+	}
+	return v
 }
 
 func (db *DB) basicExport(ctx context.Context, config *client.BackupConfig) (err error) {
@@ -257,7 +288,6 @@ func (db *DB) basicExport(ctx context.Context, config *client.BackupConfig) (err
 								if foreignDoc.ID().String() == foreignDocID.String() {
 									delete(oldForeignDoc, field.Name+request.RelatedObjectID)
 								}
-
 								if foreignDoc.ID().String() == doc.ID().String() {
 									isSelfReference = true
 									refFieldName = field.Name + request.RelatedObjectID
